@@ -196,7 +196,7 @@ class Squid:
     _counter = 0
 
     def __init__(self, ctx, tree, name=None, conf_extra='', workers=0, cache_mem='32 MB', http_access='http_access allow all',
-                 clock=True, env=None, debug='ALL,1', hosts=None, port_opts='', asan=False):
+                 clock=True, env=None, debug='ALL,1', hosts=None, port_opts='', asan=False, dns=None):
         Squid._counter += 1
         self.ctx = ctx
         self.tree = tree
@@ -239,7 +239,7 @@ class Squid:
             'unlinkd_program %s/src/unlinkd' % t,
             'logfile_daemon %s/src/log/file/log_file_daemon' % t,
             'pinger_enable off',
-            'dns_nameservers 127.0.0.1',
+            'dns_nameservers %s' % (dns or '127.0.0.1'),
             'hosts_file %s/hosts' % self.run,
             'cache_mem %s' % cache_mem,
             'shutdown_lifetime 0 seconds',
